@@ -227,7 +227,7 @@ def let_rule(res, fx):
 # ------------------------------------------------------------------ SatELite guards
 def elimination_rule(res, fx):
     r = res.rule('elimination-guard', 'SatELite never eliminates a frozen variable: eliminateVar is called only under !frozen[v]; asymmVar runs with the variable temporarily frozen; '
-                 'theory atoms, mapper-frozen variables, assumptions and frame variables are frozen', floor=5)
+                 'theory atoms, mapper-frozen variables, assumptions and frame variables are frozen; no clause is added after an elimination that stays switched on', floor=6)
     el = fx.func('opensmt::SimpSMTSolver::eliminate')
     calls = [n for n in fwalk(el) if is_call(n, 'eliminateVar') and not n.get('as')]
     if not calls:
@@ -304,6 +304,32 @@ def elimination_rule(res, fx):
         res.ok(r, 'solve_: assumptions frozen before eliminate, unfrozen afterwards')
     else:
         res.bad(r, 'assumptions-not-frozen', fx.loc(ss), 'SimpSMTSolver::solve_ no longer freezes the assumption variables before eliminate() and releases them afterwards (%s)' % seen)
+    # elimination stays switched on across checks exactly when incremental mode is off (solve(assumps, !isIncremental(), isIncremental())):
+    # then no clause may be added after the first check, because it could mention an eliminated variable (only asserted in addOriginalSMTClause)
+    ms = fx.func('opensmt::MainSolver::solve_')
+    keeps_elim = False
+    for n in fwalk(ms):
+        if is_call(n, 'solve') and len(n.get('a', [])) == 3:
+            a1, a2 = str(n['a'][1]), str(n['a'][2])
+            keeps_elim = 'isIncremental' in a1 and 'isIncremental' in a2
+    if keeps_elim:
+        ins = fx.func('opensmt::MainSolver::insertFormula')
+        gate = False
+        for n in walk(ins['body']):
+            if n.get('k') == 'if' and not n.get('as') and any(x.get('k') == 'throw' for x in walk(n['then'])) and any(is_call(x, 'isIncremental') for x in walk(n['cond'])):
+                gate = True
+        guarded_add = False
+        ao2 = fx.func('opensmt::SimpSMTSolver::addOriginalSMTClause')
+        for n in walk(ao2['body']):
+            if n.get('k') == 'if' and not n.get('as') and any(is_call(x, 'isEliminated') for x in walk(n['cond'])) and any(x.get('k') in ('throw', 'ret') for x in walk(n['then'])):
+                guarded_add = True
+        if gate or guarded_add:
+            res.ok(r, 'with incremental mode off elimination persists across checks; %s' % ('insertFormula rejects assertions after the first check' if gate else 'addOriginalSMTClause rejects eliminated variables'))
+        else:
+            res.bad(r, 'clause-after-elimination', fx.loc(ins), 'with :incremental false MainSolver::solve_ keeps variable elimination switched on after a check, but assertions made after that check are '
+                    'still accepted and may mention eliminated variables (addOriginalSMTClause only asserts !isEliminated): the second check-sat answers from a formula that lost their clauses')
+    else:
+        res.ok(r, 'MainSolver::solve_ does not keep elimination on across checks')
     nf = fx.func('opensmt::MainSolver::newFrameTerm')
     if any(is_call(n, 'setFrozen') for n in fwalk(nf)) and any(is_call(n, 'addAssumptionVar') for n in fwalk(nf)):
         res.ok(r, 'newFrameTerm: frame variable frozen in the term mapper and registered as assumption variable')
